@@ -2,10 +2,11 @@ CONSTANTS
  Oids = {"o1"}
  Paths = {"p1","p2"}
  Branches = {"main","dev"}
- Ages = {0}
+ Ages = {0, 1}
  MaxCommits = 4
  MaxSteps = 6
  Emit = FALSE
+ Skew = TRUE
  Selections = {{"p1"}, {"p1","p2"}}
 SPECIFICATION MSpec
 VIEW MView
